@@ -129,6 +129,17 @@ pub fn check_term(r: &R, t: &Term) -> Result<(), String> {
     if !count_ok {
         return Err(format!("capacity class {:?} but {} components", t.get_capacity(), n));
     }
+    // "the ordered / unordered nature of the term": a binary term whose two components differ equals the term with
+    // the components swapped exactly when its capacity class says it is a binary SET
+    if matches!(shape, Shape::Pair | Shape::SymPair) && r.kids.len() == 2 && r.kids[0].canon() != r.kids[1].canon() {
+        let swapped = R { tag: r.tag, name: r.name.clone(), idx: r.idx, kids: vec![r.kids[1].clone(), r.kids[0].clone()] };
+        if let Ok(sw) = quiet_catch(AssertUnwindSafe(|| swapped.build())) {
+            let same = &sw == t;
+            if same != t.is_capacity_binary_set() {
+                return Err(format!("capacity class {:?}, but the term {} the same term with its two components swapped", t.get_capacity(), if same { "equals" } else { "differs from" }));
+            }
+        }
+    }
     // the class's own component count ("atoms and unary one, binary two"; nothing is demanded of the multi classes)
     let base = t.get_capacity().base_num();
     let base_ok = match shape {
